@@ -90,6 +90,9 @@ func genProgram(r *rand.Rand, nIn int, fast bool, n int) []progOp {
 		default:
 			if fast {
 				p = append(p, progOp{Kind: "recursive"})
+			} else if r.Intn(3) == 0 {
+				// the activation paths printed to a writer that fails after a few bytes (a closed pipe)
+				p = append(p, progOp{Kind: "paths", Arg: r.Intn(12)})
 			} else {
 				p = append(p, progOp{Kind: "depth", Arg: r.Intn(4)})
 			}
@@ -135,9 +138,24 @@ func runOp(s network.Solver, net *network.Network, op progOp) opResult {
 	case "depth":
 		v, err := net.MaxActivationDepthWithCap(op.Arg)
 		res.Val, res.Err = v, errStr(err)
+	case "paths":
+		res.Err = errStr(network.PrintAllActivationDepthPaths(net, &failingWriter{left: op.Arg}))
 	}
 	res.Outs = s.ReadOutputs()
 	return res
+}
+
+// failingWriter accepts a few bytes and fails from then on
+type failingWriter struct{ left int }
+
+func (w *failingWriter) Write(p []byte) (int, error) {
+	if len(p) > w.left {
+		n := w.left
+		w.left = 0
+		return n, fmt.Errorf("write failed: pipe closed")
+	}
+	w.left -= len(p)
+	return len(p), nil
 }
 
 func sameResult(a, b opResult) bool {
@@ -343,6 +361,19 @@ func c13Pair(c *Ctx, r *rand.Rand, builder func() *network.Network, nIn int, fas
 		}
 		c.Count("history.activation_counters_wrap_around", 1)
 	}
+	if sensors := countSensors(usedNet); !fast && sensors > nIn && r.Intn(3) == 0 {
+		// the caller loads the bias sensors explicitly, with a value other than one, somewhere in the history: loads of the plain
+		// input vector after the flush mean bias = 1, as on a new instance
+		for k := 0; k < 1+r.Intn(2); k++ {
+			full := append(randInputs(r, nIn, 1.5), make([]float64, sensors-nIn)...)
+			for i := nIn; i < sensors; i++ {
+				full[i] = pick(r, 0.3, -2.0, 0.0)
+			}
+			at := 1 + r.Intn(len(P))
+			P = append(P[:at], append([]progOp{{Kind: "load", Vec: full}}, P[at:]...)...)
+		}
+		c.Count("history.explicit_bias_loads", 1)
+	}
 	before := used.ReadOutputs()
 	endedInError := false
 	for _, op := range P {
@@ -460,4 +491,14 @@ func c13EvaluateTwice(c *Ctx, r *rand.Rand) {
 			return
 		}
 	}
+}
+
+func countSensors(net *network.Network) int {
+	n := 0
+	for _, nd := range net.BaseNodes() {
+		if nd.IsSensor() {
+			n++
+		}
+	}
+	return n
 }
